@@ -3,161 +3,9 @@
 package wsutil
 
 import (
-	"io"
-
 	"github.com/gobwas/ws"
 )
 
 type vExt struct{}
 
 func (vExt) SetBits(h ws.Header) (ws.Header, error) { return h, nil }
-
-// C18_writer_reset: from ANY prior state (buffered data, fragments sent, growth, extensions,
-// disabled flushing, other side, sticky error) Reset makes the writer equal to a fresh
-// NewWriterBuffer over the same backing array; ResetOp keeps extensions and flush mode.
-func C18_writer_reset() {
-	server0 := vChoose("side0", 2) == 0
-	dst0 := &vDst{failAt: -1}
-	rawLen := []int{16, 140}[vChoose("raw", 2)]
-	w := NewWriterBuffer(dst0, vSide(server0), ws.OpText, make([]byte, rawLen))
-	// arbitrary history, expressed as an arbitrary state
-	w.n = vChoose("n", 4)
-	w.fseq = vInt("fseq")
-	vAssume(w.fseq >= 0)
-	w.dirty = vBool("dirty")
-	w.noFlush = vBool("noflush")
-	if vChoose("ext", 2) == 1 {
-		w.SetExtensions(vExt{})
-	}
-	if vChoose("err", 2) == 1 {
-		w.err = vErrDst
-	}
-	if vChoose("grown", 2) == 1 {
-		w.Grow(300)
-	}
-	if vChoose("parked", 2) == 1 {
-		w.Reset(nil, 0, 0) // what PutWriter does before parking a writer in the pool
-	}
-	server := vChoose("side", 2) == 0
-	op := ws.OpCode(1 + vChoose("op", 2))
-	dst := &vDst{failAt: -1}
-	if vChoose("which", 2) == 0 {
-		w.Reset(dst, vSide(server), op)
-		fresh := NewWriterBuffer(dst, vSide(server), op, make([]byte, len(w.raw)))
-		same := vAnd(w.n == fresh.n, vAnd(w.fseq == fresh.fseq, vAnd(w.dirty == fresh.dirty, w.noFlush == fresh.noFlush)))
-		vAssert(same, "reset.counters_as_new")
-		vAssert(vAnd(w.op == fresh.op, w.state == fresh.state), "reset.config_as_new")
-		vAssert(len(w.extensions) == 0, "reset.extensions_dropped")
-		vAssert(vAnd(len(w.buf) == len(fresh.buf), len(w.raw) == len(fresh.raw)), "reset.buffer_as_new")
-		vAssert(w.err == nil, "reset.sticky_error_cleared")
-		// behaves as new: one small message
-		k, err := w.Write([]byte{'h', 'i'})
-		vAssert(vAnd(err == nil, k == 2), "reset.write_works")
-		vAssert(w.Flush() == nil, "reset.flush_works")
-		fs, ok := vParseFrames(dst.all)
-		vAssert(vAnd(ok, len(fs) == 1), "reset.one_frame")
-		if ok && len(fs) == 1 {
-			f := fs[0]
-			vAssert(vAnd(f.fin, vAnd(f.op == byte(op), vAnd(f.masked == !server, vEqBytes(f.payload, []byte("hi"))))), "reset.frame_as_new")
-		}
-		vAssert(len(dst0.all) == 0, "reset.old_destination_untouched")
-		return
-	}
-	ext0, nf0 := len(w.extensions), w.noFlush
-	w.ResetOp(op)
-	vAssert(vAnd(w.n == 0, vAnd(w.fseq == 0, !w.dirty)), "resetop.drops_fragments")
-	vAssert(vAnd(len(w.extensions) == ext0, w.noFlush == nf0), "resetop.keeps_extensions_and_flush_mode")
-	vAssert(w.op == op, "resetop.op")
-}
-
-// C18_pool_cycle: PutWriter/GetWriter hand out a writer that behaves as new.
-func C18_pool_cycle() {
-	server := vChoose("side", 2) == 0
-	dst0 := &vDst{failAt: -1}
-	w := GetWriter(dst0, ws.StateClientSide, ws.OpBinary, 128)
-	w.Write([]byte("left over"))
-	w.DisableFlush()
-	if vChoose("err", 2) == 1 {
-		w.err = vErrDst
-	}
-	PutWriter(w)
-	dst := &vDst{failAt: -1}
-	w2 := GetWriter(dst, vSide(server), ws.OpText, 128)
-	k, err := w2.Write([]byte{'o', 'k'})
-	vAssert(vAnd(err == nil, k == 2), "pool.write_works")
-	vAssert(w2.Flush() == nil, "pool.flush_works")
-	fs, ok := vParseFrames(dst.all)
-	vAssert(vAnd(ok, len(fs) == 1), "pool.one_frame")
-	if ok && len(fs) == 1 {
-		vAssert(vAnd(fs[0].fin, vAnd(fs[0].op == 1, vEqBytes(fs[0].payload, []byte("ok")))), "pool.frame_as_new")
-	}
-	// the writer that was put back is as new too, whoever gets it next (GetWriter resets it)
-	dst3 := &vDst{failAt: -1}
-	w.Reset(dst3, vSide(server), ws.OpText)
-	fresh := NewWriterBuffer(dst3, vSide(server), ws.OpText, make([]byte, len(w.raw)))
-	vAssert(vAnd(w.err == nil, vAnd(w.n == 0, vAnd(!w.noFlush, !w.dirty))), "pool.put_writer_as_new")
-	vAssert(vAnd(len(w.buf) == len(fresh.buf), w.Size() == fresh.Size()), "pool.put_writer_buffer_as_new")
-	w.Write([]byte{'x', 'y'})
-	vAssert(w.Flush() == nil, "pool.put_writer_flush_works")
-	fs3, ok3 := vParseFrames(dst3.all)
-	vAssert(vAnd(ok3, len(fs3) == 1), "pool.put_writer_one_frame")
-	if ok3 && len(fs3) == 1 {
-		vAssert(vAnd(fs3[0].masked == !server, vEqBytes(fs3[0].payload, []byte("xy"))), "pool.put_writer_frame_as_new")
-	}
-}
-
-// C18_small_resets: CipherReader/CipherWriter/UTF8Reader Reset equal fresh instances.
-func C18_small_resets() {
-	key := [4]byte{vU8("k0"), vU8("k1"), vU8("k2"), vU8("k3")}
-	old := [4]byte{vU8("o0"), vU8("o1"), vU8("o2"), vU8("o3")}
-	src := &vChunkSrc{}
-	switch vChoose("which", 3) {
-	case 0:
-		cr := &CipherReader{r: nil, mask: old, pos: vInt("pos")}
-		cr.Reset(src, key)
-		fresh := NewCipherReader(src, key)
-		vAssert(vAnd(cr.mask == fresh.mask, vAnd(cr.pos == fresh.pos, cr.r == fresh.r)), "small.cipherreader_as_new")
-	case 1:
-		dst := &vDst{failAt: -1}
-		cw := &CipherWriter{w: nil, mask: old, pos: vInt("pos")}
-		cw.Reset(dst, key)
-		fresh := NewCipherWriter(dst, key)
-		vAssert(vAnd(cw.mask == fresh.mask, vAnd(cw.pos == fresh.pos, cw.w == fresh.w)), "small.cipherwriter_as_new")
-	case 2:
-		u := &UTF8Reader{state: vU32("state"), codep: vU32("codep"), accepted: int(vU8("accepted"))}
-		u.Reset(src)
-		fresh := NewUTF8Reader(src)
-		vAssert(vAnd(u.state == fresh.state, u.codep == fresh.codep), "small.utf8reader_state_as_new")
-		vAssert(u.Accepted() == fresh.Accepted(), "small.utf8reader_accepted_as_new")
-		vAssert(vAnd(u.Valid() == fresh.Valid(), u.Source == fresh.Source), "small.utf8reader_valid_as_new")
-	}
-}
-
-// C18_reader_next_message: after a complete message has been delivered or discarded the
-// reader's message state equals a fresh reader's.
-func C18_reader_next_message() {
-	server := vChoose("side", 2) == 0
-	wire, items := vGenStream(server, 2, 1, false)
-	src := vNewSrc(wire, 0, "chunk")
-	rd := &Reader{Source: &src, State: vSide(server), CheckUTF8: vBool("utf8")}
-	rd.OnIntermediate = func(h ws.Header, r io.Reader) error { return nil }
-	for n := range items {
-		_, err := rd.NextFrame()
-		if err != nil {
-			return
-		}
-		if vChoose("how", 2) == 0 {
-			if _, err := vReadAllB(rd, 16); err != io.EOF {
-				return // invalid UTF-8 (text bytes are arbitrary here): not a delivered message
-			}
-		} else if rd.Discard() != nil {
-			return
-		}
-		fresh := &Reader{}
-		same := vAnd(rd.opCode == fresh.opCode, vAnd(rd.frame == nil, vAnd(rd.raw.N == 0, rd.raw.R == nil)))
-		same = vAnd(same, vAnd(rd.utf8.state == 0, vAnd(rd.utf8.codep == 0, rd.utf8.accepted == 0)))
-		same = vAnd(same, rd.State == vSide(server))
-		vAssert(same, "reader.message_state_as_new")
-		_ = n
-	}
-}
